@@ -639,7 +639,7 @@ func (o *c15Oracle) AfterRun(w *World, op *Op, res *RunResult) {
 		}
 	case op.HasTag("recover"):
 		if !res.OK() {
-			w.Fail("recovery-run-failed", "recovery run (default flags) failed: stage=%s err=%s", res.Stage, res.Err)
+			w.Fail("recovery-run-failed:"+res.FailClass(), "recovery run (default flags) failed: stage=%s err=%s", res.Stage, res.Err)
 			return
 		}
 		for _, c := range w.CheckChains(ChainOpts{RequireAll: true, CheckKeyIDs: true}) {
@@ -647,7 +647,7 @@ func (o *c15Oracle) AfterRun(w *World, op *Op, res *RunResult) {
 		}
 	case op.HasTag("noop"):
 		if !res.OK() {
-			w.Fail("third-run-failed", "run after recovery failed: stage=%s err=%s", res.Stage, res.Err)
+			w.Fail("third-run-failed:"+res.FailClass(), "run after recovery failed: stage=%s err=%s", res.Stage, res.Err)
 			return
 		}
 		if len(res.Plan) > 0 || len(res.Writes) > 0 {
